@@ -230,6 +230,7 @@ func runSrv(o *Out, r *rand.Rand, focus string) {
 		}
 		if focus == "c07" {
 			c07Client(o, rig, r, &id, cfg)
+			c07PanicHold(o, rig, r, &id, cfg)
 		}
 		if focus == "c04" && !cfg.auth {
 			srvPooled(o, rig, r, &id, "c04")
